@@ -308,6 +308,33 @@ func c03Exec(op string) string {
 			notes = append(notes, wn)
 		}
 	}
+	if len(notes) == 0 {
+		// a value that references one (non-empty) sub-map or list from several places, and nil maps in
+		// several places, is encoded like the tree it denotes (its deep copy)
+		sv := deepCopy(v)
+		internShared(sv)
+		if mm, ok := sv.(map[string]interface{}); ok && len(mm) > 1 {
+			var nilMap map[string]interface{}
+			mm["znil1"], mm["znil2"] = nilMap, nilMap
+		}
+		pv := deepCopy(sv)
+		enc1 := func(x interface{}) ([]byte, error) {
+			switch api {
+			case 0:
+				return mxj.Map(x.(map[string]interface{})).Xml()
+			case 1:
+				return mxj.Map(x.(map[string]interface{})).Xml(rt)
+			case 2:
+				return mxj.AnyXml(x, rt, et)
+			}
+			return mxj.AnyXml(x)
+		}
+		bs, es := enc1(sv)
+		bp, ep := enc1(pv)
+		if (es == nil) != (ep == nil) || !bytes.Equal(bs, bp) {
+			notes = append(notes, fmt.Sprintf("SHARED a value with sub-maps referenced from several places is encoded differently from its deep copy (%v): %s", es, clip(string(bs), 160)))
+		}
+	}
 	// the same content in other Go container types (lists of strings as []string anywhere; below the
 	// levels the root rules look at also mxj.Map, map[interface{}]interface{}, map[string]string):
 	// the encoders treat them as the plain containers - same bytes
